@@ -81,7 +81,8 @@ def run(tier, seed, replay=None):
              "--first-frame, random choice at every decision. the event trace (locks with mutex roles, reads, evaluations, merges) is replayed on the "
              "model step by step; clauses are judged on the trace itself. distinct = distinct traces. executable leg: the real csg_stat on complete generated inputs "
              "(the C04 generator: 1-6 different frames, pair / three-body / bonded interactions, IMC, block output, frame selections) run with --nt 1 and with "
-             "--nt 2..8; every written file compared byte for byte",
+             "--nt 2..8; every written file compared byte for byte. two families: mapped (--cg, bonded terms and exclusions from the mapping files) and direct "
+             "(no mapping: the xml topology itself declares bonds / angles / dihedrals, so every worker's own topology supplies interactions and exclusions)",
         assumptions=["the scheduler serialises threads at the hook points only: data races inside EvalConfiguration and memory-model effects are not explored",
                      "pthread mutexes unlocked by another thread than the locker are modelled as binary semaphores",
                      "the unordered mode has no theorem (its budget clause is a recorded finding); its traces are judged by the trace predicates only",
